@@ -1,13 +1,194 @@
 /-
-C08 — multiprocess collection equals the per-mode aggregate (work in progress: theorems are being added).
+C08 — multiprocess collection equals the per-mode aggregate over all worker histories.
+
+Model M: `Model/Multiprocess.lean` (`merge` = `_read_metrics` then `_accumulate_metrics` on a directory listing,
+`markProcessDead`).  Spec S: `Spec/Multiprocess.lean` (`value`: per family and series the aggregate the property names).
+All theorems quantify over listings of any length with any number of entries per file; values are an abstract type
+(`VOps`), bounds an abstract type with decidable equality (`BOps`).  Nothing is assumed about `add`/`lt` except where
+a hypothesis says so; `Int` discharges every such hypothesis (non-vacuity examples).
+
+Hypotheses that are genuine restrictions of the input (each probed on the real code):
+* `WFInput.no_pid_label`: no gauge has a label NAMED `pid`.  Without it the real collector overwrites (mode all) or
+  drops (other modes) the user's label — candidate finding, see `pid_label_collides` below for M exhibiting it.
+* `WFInput.one_type/one_mode`: one metric name is written with one type and, for gauges, one mode by all processes.
+* `hk` (histograms): the rendered bucket keys of one family are pairwise different, i.e. `floatToGoString` is injective
+  on the bounds that occur (C13) — otherwise two bounds would be reported under one `le`.
 -/
-import PromVerif.Model.Multiprocess
-import PromVerif.Spec.Multiprocess
+import PromVerif.Lemmas.MultiprocessFamily
+import PromVerif.Lemmas.MultiprocessSpec
 
 namespace PromVerif.Props.C08
-open PromVerif.Generated.Multiprocess
+open PromVerif.Py PromVerif.Generated.Multiprocess
+open PromVerif.Model.Multiprocess PromVerif.Spec.Multiprocess
+set_option autoImplicit false
 
 /-- the extractor found every site of multiprocess.py / values.py / metrics.Gauge in the shape it understands -/
 theorem extract_ok : extractOk = true := by decide
+
+variable {V B : Type}
+
+/-- what the writer side guarantees about a directory listing (see the file header for the genuine restrictions) -/
+structure WFInput (bo : BOps B) (fs : List (SFile V)) : Prop where
+  files : ∀ f ∈ fs, WFFile f
+  one_type : ∀ c ∈ allContribs fs, ∀ c' ∈ allContribs fs, c.key.metric = c'.key.metric → c'.typ = c.typ
+  one_mode : ∀ c ∈ allContribs fs, ∀ c' ∈ allContribs fs, c.key.metric = c'.key.metric → c.typ = gaugeType →
+    c'.mode = c.mode
+  modes : ∀ c ∈ allContribs fs, c.typ = gaugeType → c.mode ∈ gaugeModes
+  no_pid_label : ∀ c ∈ allContribs fs, c.typ = gaugeType → ∀ l ∈ c.key.labels, l.1 ≠ pidLabel
+  bounds_parse : ∀ c ∈ allContribs fs, c.typ = histogramType → ∀ t, leText c = some t → (bo.parse t).isSome = true
+
+theorem mem_contribs {fs : List (SFile V)} {mn : Str} {c : Contrib V} (h : c ∈ contribs fs mn) :
+    c ∈ allContribs fs ∧ c.key.metric = mn := by
+  unfold contribs at h
+  have := List.mem_filter.mp h
+  exact ⟨this.1, by simpa using this.2⟩
+
+theorem kind_gauge (mode : Str) (h : mode ∈ gaugeModes) :
+    ∀ (vo : VOps V) (bo : BOps B) [DecidableEq B] (mn : Str) (cs : List (Contrib V)) (k : SKey),
+      (match kindOf gaugeType mode with
+        | .plainSum => sumValue vo cs k
+        | .histogram => histValue vo bo mn cs k
+        | kind => gaugeValue vo kind cs k) = gaugeValue vo (kindOf gaugeType mode) cs k := by
+  intro vo bo _ mn cs k
+  rcases rule_kind mode h with ⟨_, hk⟩ | ⟨_, hk⟩ | ⟨_, hk⟩ | ⟨_, hk⟩ | ⟨_, hk⟩ <;> rw [hk]
+
+theorem kind_hist (mode : Str) : kindOf histogramType mode = .histogram := by
+  have h1 : histogramType ≠ "gauge".toList := by decide
+  have h2 : histogramType = "histogram".toList := by decide
+  unfold kindOf
+  rw [if_neg h1, if_pos h2]
+
+theorem kind_plain (typ mode : Str) (hg : typ ≠ gaugeType) (hh : typ ≠ histogramType) : kindOf typ mode = .plainSum := by
+  have e1 : gaugeType = "gauge".toList := by decide
+  have e2 : histogramType = "histogram".toList := by decide
+  unfold kindOf
+  rw [if_neg (e1 ▸ hg), if_neg (e2 ▸ hh)]
+
+/-- one family: the record built by the reader, accumulated, is the spec's value function as a finite map -/
+theorem family_eq_spec (vo : VOps V) (bo : BOps B) [DecidableEq B] (fs : List (SFile V)) (h : WFInput bo fs)
+    (mn : Str) (c : Contrib V) (cs : List (Contrib V)) (hc : contribs fs mn = c :: cs)
+    (hk : c.typ = histogramType → (AL.keys (bucketSeries vo bo mn (contribs fs mn))).Nodup) :
+    ∃ m ss, (c :: cs).foldl famStep none = some m ∧ m.name = mn ∧ m.doc = helpOf fs mn ∧ m.typ = typOf fs mn ∧
+      accumulateSamples vo bo m = .ok ss ∧ (AL.keys ss).Nodup ∧ ∀ k, AL.get? ss k = value vo bo fs mn k := by
+  have hmem : ∀ c' ∈ c :: cs, c' ∈ allContribs fs ∧ c'.key.metric = mn := fun c' hc' => mem_contribs (hc ▸ hc')
+  have hc0 := hmem c List.mem_cons_self
+  have hty : ∀ c' ∈ cs, c'.typ = c.typ := fun c' hc' =>
+    h.one_type c hc0.1 c' (hmem c' (List.mem_cons_of_mem _ hc')).1 (hc0.2.trans (hmem c' (List.mem_cons_of_mem _ hc')).2.symm)
+  have hmo : c.typ = gaugeType → ∀ c' ∈ cs, c'.mode = c.mode := fun hg c' hc' =>
+    h.one_mode c hc0.1 c' (hmem c' (List.mem_cons_of_mem _ hc')).1
+      (hc0.2.trans (hmem c' (List.mem_cons_of_mem _ hc')).2.symm) hg
+  have hrec := famStep_fold c cs hty hmo
+  have hhelp : helpOf fs mn = c.key.help := by simp [helpOf, hc]
+  have htyp : typOf fs mn = c.typ := by simp [typOf, hc]
+  have hmode : modeOf fs mn = c.mode := by simp [modeOf, hc]
+  have hall : ∀ c' ∈ c :: cs, c'.typ = c.typ := by
+    intro c' hc'
+    rcases List.mem_cons.mp hc' with e | e
+    · rw [e]
+    · exact hty c' e
+  have main : ∃ ss, accumulateSamples vo bo (⟨c.key.metric, c.key.help, c.typ,
+        if c.typ = gaugeType then some c.mode else none, (c :: cs).map toRSample⟩ : Metric V) = .ok ss ∧
+      (AL.keys ss).Nodup ∧ ∀ k, AL.get? ss k = value vo bo fs mn k := by
+    by_cases hg : c.typ = gaugeType
+    · -- gauge
+      have hm := h.modes c hc0.1 hg
+      obtain ⟨ss, h1, h2, h3⟩ := family_gauge vo bo c.key.metric c.key.help c.mode (c :: cs) hm
+        (fun c' hc' => (hall c' hc').trans hg)
+        (fun c' hc' => h.no_pid_label c' (hmem c' hc').1 ((hall c' hc').trans hg))
+      refine ⟨ss, ?_, h2, ?_⟩
+      · rw [if_pos hg, hg]; exact h1
+      · intro k
+        rw [h3 k]
+        unfold value
+        simp only [hc, htyp, hmode, hg]
+        exact (kind_gauge c.mode hm vo bo mn (c :: cs) k).symm
+    · by_cases hh : c.typ = histogramType
+      · -- histogram
+        have hkk := hk hh
+        rw [hc] at hkk
+        obtain ⟨ss, h1, h2, h3⟩ := family_hist_get? vo bo mn c.key.help (if c.typ = gaugeType then some c.mode else none)
+          (c :: cs) (fun c' hc' => by rw [hall c' hc']; exact hg)
+          (fun c' hc' => h.bounds_parse c' (hmem c' hc').1 ((hall c' hc').trans hh)) hkk
+        refine ⟨ss, ?_, h2, ?_⟩
+        · rw [hc0.2, hh]; exact h1
+        · intro k
+          rw [h3 k]
+          unfold value
+          simp only [hc, htyp, hmode, hh, kind_hist]
+      · -- counter, summary, …
+        obtain ⟨ss, h1, h2, h3⟩ := family_plain vo bo c.key.metric c.key.help c.typ
+          (if c.typ = gaugeType then some c.mode else none) (c :: cs) hg hh
+          (fun c' hc' => by rw [hall c' hc']; exact hg)
+        refine ⟨ss, h1, h2, ?_⟩
+        intro k
+        rw [h3 k]
+        unfold value
+        simp only [hc, htyp, hmode, kind_plain c.typ c.mode hg hh]
+  obtain ⟨ss, h1, h2, h3⟩ := main
+  exact ⟨_, ss, hrec, hc0.2, hhelp.symm, htyp.symm, h1, h2, h3⟩
+
+theorem mapM_spec {α β γ : Type} (fE : α → PyM β) (Q : α → β → Prop) (g : β → γ) (g' : α → γ) (xs : List α)
+    (h : ∀ x ∈ xs, ∃ y, fE x = .ok y ∧ Q x y ∧ g y = g' x) :
+    ∃ ys, xs.mapM fE = .ok ys ∧ ys.map g = xs.map g' ∧ ∀ y ∈ ys, ∃ x ∈ xs, Q x y := by
+  induction xs with
+  | nil => exact ⟨[], rfl, rfl, fun y hy => by cases hy⟩
+  | cons x r ih =>
+    obtain ⟨y, h1, h2, h3⟩ := h x List.mem_cons_self
+    obtain ⟨ys, i1, i2, i3⟩ := ih (fun z hz => h z (List.mem_cons_of_mem _ hz))
+    refine ⟨y :: ys, ?_, ?_, ?_⟩
+    · rw [List.mapM_cons, h1, i1]; rfl
+    · simp [h3, i2]
+    · intro z hz
+      rcases List.mem_cons.mp hz with e | e
+      · exact ⟨x, List.mem_cons_self, e ▸ h2⟩
+      · obtain ⟨w, hw, hq⟩ := i3 z e
+        exact ⟨w, List.mem_cons_of_mem _ hw, hq⟩
+
+/-- **C08, main statement.**  For every listing of well-formed files, `merge` succeeds; it reports exactly the families
+    that have a contribution, each once (`families`, `Nodup`); each family carries the help text and type of its
+    contributions; its samples are the conversion of a dict `ss` whose keys are pairwise different (no series
+    duplicated) and whose value at EVERY key `k` is the spec's `value` — in particular a key is present iff the spec
+    gives it a value (no series dropped, none invented). -/
+theorem accumulate_eq_spec (vo : VOps V) (bo : BOps B) [DecidableEq B] (fs : List (SFile V)) (h : WFInput bo fs)
+    (hk : ∀ mn, typOf fs mn = histogramType → (AL.keys (bucketSeries vo bo mn (contribs fs mn))).Nodup) :
+    ∃ out, merge vo bo (fs.map toFile) = .ok out ∧
+      out.map (·.name) = families fs ∧ (families fs).Nodup ∧
+      ∀ om ∈ out, om.doc = helpOf fs om.name ∧ om.typ = typOf fs om.name ∧
+        ∃ ss, om.samples = convert ss ∧ (AL.keys ss).Nodup ∧ ∀ k, AL.get? ss k = value vo bo fs om.name k := by
+  unfold merge
+  rw [readMetrics_ok fs h.files]
+  simp only [bind, Except.bind]
+  have hkeys := read_keys (allContribs fs)
+  have hnd : (AL.keys ((allContribs fs).foldl readStep [])).Nodup := by rw [hkeys]; exact nodup_distinct _
+  obtain ⟨ys, h1, h2, h3⟩ := mapM_spec (fun (nm : Str × Metric V) => accumulateMetric vo bo nm.2)
+    (fun nm om => om.name = nm.1 ∧ om.doc = helpOf fs nm.1 ∧ om.typ = typOf fs nm.1 ∧
+      ∃ ss, om.samples = convert ss ∧ (AL.keys ss).Nodup ∧ ∀ k, AL.get? ss k = value vo bo fs nm.1 k)
+    (·.name) (·.1) ((allContribs fs).foldl readStep [])
+    (by
+      intro nm hnm
+      have hget := AL.get?_of_mem _ hnd nm.1 nm.2 hnm
+      rw [read_get?] at hget
+      cases hcs : (allContribs fs).filter (fun c => c.key.metric = nm.1) with
+      | nil => rw [hcs] at hget; cases hget
+      | cons c cs =>
+        have hc : contribs fs nm.1 = c :: cs := hcs
+        have htyp : typOf fs nm.1 = c.typ := by simp [typOf, hc]
+        obtain ⟨m, ss, e1, e2, e3, e4, e5, e6, e7⟩ := family_eq_spec vo bo fs h nm.1 c cs hc
+          (fun hh => hk nm.1 (htyp.trans hh))
+        rw [hcs, e1] at hget
+        have hm : nm.2 = m := (Option.some.inj hget).symm
+        refine ⟨⟨m.name, m.doc, m.typ, convert ss⟩, ?_, ⟨e2, e3, e4, ss, rfl, e6, e7⟩, e2⟩
+        unfold accumulateMetric
+        rw [hm, e5]
+        rfl)
+  refine ⟨ys, h1, ?_, nodup_distinct _, ?_⟩
+  · rw [h2]
+    have : ((allContribs fs).foldl readStep []).map (·.1) = AL.keys ((allContribs fs).foldl readStep []) := rfl
+    rw [this, hkeys]
+    rfl
+  · intro om hom
+    obtain ⟨nm, _, q1, q2, q3, q4⟩ := h3 om hom
+    rw [q1]
+    exact ⟨q2, q3, q4⟩
 
 end PromVerif.Props.C08
